@@ -365,16 +365,28 @@ class Scan:
         return False
 
     def set_iteration_sites(self):
+        """places where the simplify machinery takes elements of a Python set in iteration (= hash) order:
+        `list(<set>)`, `sorted(<set>)` (harmless, listed for the record) and `<set>.pop()` that picks the
+        next group to process (simplify mixin and NetlistMixin._find_combine_subsets)"""
         sites = []
+        funcs = []
         for (fn, cls) in self.byclass.get('NetlistSimplifyMixin', []):
-            for f in [n for n in cls.body if isinstance(n, ast.FunctionDef)]:
+            funcs += [n for n in cls.body if isinstance(n, ast.FunctionDef)]
+        for nm in ('_find_combine_subsets',):
+            if nm in self.members:
+                funcs.append(self.members[nm][2])
+        for f in funcs:
+            for n in ast.walk(f):
+                if isinstance(n, ast.Call) and isinstance(n.func, ast.Name) and n.func.id in ('list', 'sorted') and len(n.args) >= 1 \
+                        and isinstance(n.args[0], ast.Name) and ('set' in n.args[0].id):
+                    sites.append('%s:%s(%s)' % (f.name, n.func.id, n.args[0].id))
+            if f.name == '_find_combine_subsets':
+                # the popped name decides which type group enters the result dict first
                 for n in ast.walk(f):
-                    if isinstance(n, ast.Call) and isinstance(n.func, ast.Name) and n.func.id == 'list' and len(n.args) == 1 \
-                            and isinstance(n.args[0], ast.Name) and ('set' in n.args[0].id):
-                        sites.append('%s:list(%s)' % (f.name, n.args[0].id))
-                    if isinstance(n, ast.Call) and isinstance(n.func, ast.Name) and n.func.id == 'sorted' and len(n.args) >= 1 \
-                            and isinstance(n.args[0], ast.Name) and ('set' in n.args[0].id):
-                        sites.append('%s:sorted(%s)' % (f.name, n.args[0].id))
+                    if isinstance(n, ast.Assign) and isinstance(n.value, ast.Call) and isinstance(n.value.func, ast.Attribute) \
+                            and n.value.func.attr == 'pop' and not n.value.args and isinstance(n.value.func.value, ast.Name) \
+                            and 'set' in n.value.func.value.id:
+                        sites.append('%s:%s.pop()' % (f.name, n.value.func.value.id))
         return sites
 
     # ---- transformers
@@ -524,7 +536,7 @@ def generate(repo):
     L.append('def setIterationSites : List String := ' + llist([lstr(s) for s in sites]))
     L.append('')
     L.append('/-- those of them that are not sorted: the resulting order is the hash order -/')
-    L.append('def hashOrderSites : List String := ' + llist([lstr(s) for s in sites if ':list(' in s]))
+    L.append('def hashOrderSites : List String := ' + llist([lstr(s) for s in sites if ':list(' in s or '.pop()' in s]))
     L.append('')
     L.append('end Lcapy.Gen.Caches')
     return '\n'.join(L) + '\n', info
